@@ -179,9 +179,13 @@ theorem quiet_of_rejects (cc : CharClasses) (l : Language) (thr : Nat → Bool) 
 
 theorem quiet_of_ws (cc : CharClasses) (l : Language) (thr : Nat → Bool) (t : Tok)
     (h : t.text.all cc.isWhitespace = true) : Quiet (textCfg cc l thr) t := by
-  refine Or.inl ?_
-  show (t.text == ['-'] || t.text.all cc.isWhitespace) = true
-  rw [h, Bool.or_true]
+  -- a hinted token is never skipped (it is quiet as a hinted token); an unhinted whitespace token is skipped
+  cases hn : t.nan with
+  | true => exact Or.inr (Or.inl hn)
+  | false =>
+    refine Or.inl ?_
+    show (!t.nan && (t.text == ['-'] || t.text.all cc.isWhitespace)) = true
+    rw [hn, h, Bool.or_true]; rfl
 
 /-- what the text-level theorem asks of the separator text `S` (besides the locality of the annotation pass):
 every token is all whitespace or a word the language refuses in every state (with an error other than
@@ -215,10 +219,11 @@ theorem C10_text (cc : CharClasses) (l : Language) (thr : Nat → Bool) (A S B :
   simp only [replaceText_eq]
   apply C10_text_with (textCfg cc l thr) (langOk_interp l) (errFresh_interp l) (l.annotate cc) A S B
     (tokenize_append3 cc A S B hne h1 h2) hann _ hS.ne
-  · show (((tokenize cc S).getLast hS.ne).text == ['-'] ||
-      ((tokenize cc S).getLast hS.ne).text.all cc.isWhitespace) = false
+  · show (!((tokenize cc S).getLast hS.ne).nan && (((tokenize cc S).getLast hS.ne).text == ['-'] ||
+      ((tokenize cc S).getLast hS.ne).text.all cc.isWhitespace)) = false
     rw [hS.lastNotSkipped.2, Bool.or_false]
-    simpa using hS.lastNotSkipped.1
+    have : (((tokenize cc S).getLast hS.ne).text == ['-']) = false := by simpa using hS.lastNotSkipped.1
+    rw [this, Bool.and_false]
   · show (!((((tokenize cc S).getLast hS.ne).text.all (fun c => !cc.isAlphabetic c) &&
         cc.trim ((tokenize cc S).getLast hS.ne).text != ['.']) ||
         l.interp.isLinking ((tokenize cc S).getLast hS.ne).lower)) = true
